@@ -242,6 +242,26 @@ func VerifH15() {
 		}
 		return r
 	}
+	if withHelper {
+		// the parameter types a connection is told are the ones ITS handler filled in
+		types := func(out []byte) (uint32, bool) {
+			msgs, _ := vFrames(out)
+			for _, m := range msgs {
+				if m.typ == 't' && len(m.body) == 6 {
+					return vBE32(m.body, 2), true
+				}
+			}
+			return 0, false
+		}
+		if ext1 {
+			o, ok := types(c1.out)
+			vAssert("conn1-parameter-types-as-its-own-handler-set-them", ok && o == uint32(oid.T_int4))
+		}
+		if ext2 {
+			o, ok := types(c2.out)
+			vAssert("conn2-parameter-types-as-its-own-handler-set-them", ok && o == 0)
+		}
+	}
 	vAssert("conn1-transcript-as-if-alone", strip(c1.out) == expect(st[0], ext1, sim1))
 	vAssert("conn2-transcript-as-if-alone", strip(c2.out) == expect(st[1], ext2, sim2))
 	n := func(b bool) int {
